@@ -33,6 +33,8 @@ Atoms of the guards of `_update_request` outside the (version, max_retries) voca
 comparison of job names, a call) are not an analysis error: they range over both truth values - a parameter
 that is never re-bound over the constants its call sites / default bind (whole-program call index, untyped
 receivers included) - and are reported in the valuation for which the bound is not tested.
+The tabulation machinery lives in `_util_D` (shared with C16.R7, which decides the converse: a retry that is
+permitted - no limit configured, or version < max_retries - is not refused; refusing it keeps C17 and breaks C16).
 Undecided: the exact number of executions.
 """
 
@@ -46,6 +48,18 @@ from ..dataflow import defs_of, origins
 from ..model import unparse
 from ..selftest import V
 from ._util_D import (
+    GuardCrash as _Crash,
+    is_version as _is_version,
+    is_max as _is_max,
+    guard_val as _val,
+    guard_atom_key as _atom_key,
+    guard_interpretable as _interpretable,
+    guard_free_atoms as _free_atoms,
+    guard_truth as _truth,
+    guard_walk as _walk,
+    retry_allowed as _allowed,
+    RETRY_ENVS as ENVS,
+    is_version_increment as _is_increment,
     DFM,
     EXC,
     FM,
@@ -95,172 +109,6 @@ META = {
 }
 
 UNRECOVERABLE = f"{EXC}.UnrecoverableWorkflowException"
-
-
-# --------------------------------------------------------------------------- guard tabulation
-
-
-class _Crash(Exception):
-    pass
-
-
-def _is_version(f, e) -> bool:
-    return isinstance(e, ast.Attribute) and e.attr == "version"
-
-
-def _is_max(f, e) -> bool:
-    return isinstance(e, ast.Attribute) and e.attr == "max_retries"
-
-
-def _val(f, e, env, depth=0):
-    e = strip(e)
-    if _is_version(f, e):
-        return env["version"]
-    if _is_max(f, e):
-        return env["max"]
-    if isinstance(e, ast.Constant) and (e.value is None or isinstance(e.value, (int, bool))):
-        return e.value
-    if isinstance(e, ast.BinOp) and isinstance(e.op, (ast.Add, ast.Sub)):
-        a, b = _val(f, e.left, env, depth), _val(f, e.right, env, depth)
-        if a is None or b is None:
-            raise _Crash(unparse(e))
-        return a + b if isinstance(e.op, ast.Add) else a - b
-    if isinstance(e, ast.Name) and depth < 3:
-        ds = defs_of(f, e.id)
-        if len(ds) == 1 and ds[0].kind in ("assign", "walrus") and ds[0].index is None:
-            return _val(f, ds[0].value, env, depth + 1)
-    raise Uninterpretable(unparse(e))
-
-
-def _atom_key(f, e):
-    """Identity of an atom outside the (version, max_retries) vocabulary.  A parameter that is never
-    re-bound has one value per activation (its occurrences are correlated); anything else is an
-    independent unknown per occurrence."""
-    x = strip(e)
-    if isinstance(x, ast.Name) and x.id in f.params and all(d.kind == "param" for d in defs_of(f, x.id)):
-        return ("param", x.id)
-    return ("expr", id(e))
-
-
-def _interpretable(f, e) -> bool:
-    try:
-        _val(f, e, {"max": 1, "version": 1})
-    except _Crash:
-        return True
-    except Uninterpretable:
-        return False
-    return True
-
-
-def _free_atoms(f, e, out=None) -> dict:
-    """key -> atom expression, for the atoms of guard `e` that `_val` cannot evaluate."""
-    out = {} if out is None else out
-    if isinstance(e, ast.BoolOp):
-        for v in e.values:
-            _free_atoms(f, v, out)
-    elif isinstance(e, ast.UnaryOp) and isinstance(e.op, ast.Not):
-        _free_atoms(f, e.operand, out)
-    elif isinstance(e, ast.Compare):
-        if not all(_interpretable(f, x) for x in [e.left, *e.comparators]) or not all(
-            isinstance(op, (ast.Is, ast.IsNot, ast.Eq, ast.NotEq, ast.Lt, ast.LtE, ast.Gt, ast.GtE)) for op in e.ops
-        ):
-            out.setdefault(_atom_key(f, e), e)
-    elif not _interpretable(f, e):
-        out.setdefault(_atom_key(f, e), e)
-    return out
-
-
-def _truth(f, e, env):
-    """Fold a guard over env = {version, max, free: {atom key: bool}}.  Atoms outside the
-    (version, max_retries) vocabulary take the truth value `env['free']` gives them (the caller
-    enumerates both); Uninterpretable only when the caller did not provide one."""
-    free = env.get("free") or {}
-    if free and not isinstance(e, (ast.BoolOp,)) and not (isinstance(e, ast.UnaryOp) and isinstance(e.op, ast.Not)):
-        k = _atom_key(f, e)
-        if k in free:
-            return free[k]
-    if isinstance(e, ast.BoolOp):
-        if isinstance(e.op, ast.And):
-            for v in e.values:
-                if not _truth(f, v, env):
-                    return False
-            return True
-        for v in e.values:
-            if _truth(f, v, env):
-                return True
-        return False
-    if isinstance(e, ast.UnaryOp) and isinstance(e.op, ast.Not):
-        return not _truth(f, e.operand, env)
-    if isinstance(e, ast.Compare):
-        left = _val(f, e.left, env)
-        for op, r in zip(e.ops, e.comparators):
-            right = _val(f, r, env)
-            if isinstance(op, ast.Is):
-                res = left is right
-            elif isinstance(op, ast.IsNot):
-                res = left is not right
-            elif isinstance(op, ast.Eq):
-                res = left == right
-            elif isinstance(op, ast.NotEq):
-                res = left != right
-            else:
-                if left is None or right is None:
-                    raise _Crash(unparse(e))
-                res = {ast.Lt: left < right, ast.LtE: left <= right, ast.Gt: left > right, ast.GtE: left >= right}.get(type(op))
-                if res is None:
-                    raise Uninterpretable(unparse(e))
-            if not res:
-                return False
-            left = right
-        return True
-    v = _val(f, e, env)
-    return bool(v)
-
-
-def _walk(f, env, avoid=()):
-    """Nodes reachable from entry over normal edges when guards over (version, max_retries) are
-    decided by `env`; other tests branch both ways.  Returns (reachable, crashed guard text | None)."""
-    g = f.cfg
-    avoid = set(avoid)
-    seen = {g.entry}
-    todo = [g.entry]
-    crash = None
-    while todo:
-        a = todo.pop()
-        n = g.nodes[a]
-        kinds = NORMAL
-        if n.kind == "test" and n.ast is not None and mentions(f, n.ast, lambda x: _is_version(f, x) or _is_max(f, x)):
-            try:
-                kinds = {"t"} if _truth(f, effective_test(f, n.ast), env) else {"f"}
-            except _Crash as c:
-                crash = str(c)
-                continue
-            except Uninterpretable:
-                kinds = NORMAL  # an unknown the caller did not enumerate: both outcomes
-        for b, k in g.succ[a]:
-            if k in kinds and b not in seen and b not in avoid:
-                seen.add(b)
-                todo.append(b)
-    return seen, crash
-
-
-def _allowed(env) -> bool:
-    return env["max"] is None or env["version"] < env["max"]
-
-
-ENVS = [{"max": m, "version": v} for m in (None, 1, 2, 3) for v in (1, 2, 3, 4, 5)]
-
-
-def _is_increment(n: ast.AST) -> bool:
-    if isinstance(n, ast.AugAssign) and isinstance(n.op, ast.Add) and isinstance(n.value, ast.Constant) and n.value.value == 1:
-        return isinstance(n.target, ast.Attribute) and n.target.attr == "version"
-    if isinstance(n, ast.Assign) and len(n.targets) == 1 and isinstance(n.targets[0], ast.Attribute) and n.targets[0].attr == "version":
-        v = n.value
-        if isinstance(v, ast.BinOp) and isinstance(v.op, ast.Add):
-            for a, b in ((v.left, v.right), (v.right, v.left)):
-                if isinstance(a, ast.Attribute) and a.attr == "version" and unparse(a.value) == unparse(n.targets[0].value) and isinstance(b, ast.Constant) and b.value == 1:
-                    return True
-    return False
 
 
 def _blocked(ctx, rule, what, func):
